@@ -814,6 +814,7 @@ dsqdata_chunk_Create(ESL_DSQDATA *dd)
    */
   U  = (dd->pack5 ? 6 * dd->chunk_maxpacket : 15 * dd->chunk_maxpacket);
   U += dd->chunk_maxseq + 1;
+  U  = (U + 3) & ~0x3;   // round up so that <psq> = smem + U - 4*maxpacket stays 4-byte aligned (smem comes from malloc)
   ESL_ALLOC(chu->smem, sizeof(ESL_DSQ) * U);
   chu->psq = (uint32_t *) (chu->smem + U - 4*dd->chunk_maxpacket);
 
